@@ -7,6 +7,8 @@
 #undef private
 #undef protected
 #include "Stream/MemoryReader.h"
+#include "Stream/DynamicMemoryWriter.h"
+#include <new>
 #include "replay_util.h"
 #include <cstring>
 
@@ -51,6 +53,19 @@ int main(int argc, char** argv)
 			if ((unsigned __int128)m.tiles.size() != want) confirmed("map returned with %zu tiles for %u x %u", m.tiles.size(), m.WidthInTiles(), m.HeightInTiles());
 		} catch (const std::exception& e) { printf("reader threw: %s\n", e.what()); }
 		// (a shift by >= 32 is reported by UBSan on stderr, which the driver treats as confirmation)
+		return finish();
+	}
+	if (c == "Map_ctor") {
+		// two default-constructed maps on storage holding different garbage must serialise identically
+		alignas(Map) static unsigned char s1[sizeof(Map)], s2[sizeof(Map)];
+		std::memset(s1, 0xAA, sizeof s1); std::memset(s2, 0x55, sizeof s2);
+		Map* m1 = new (s1) Map(); Map* m2 = new (s2) Map();
+		if (!(m1->clipRect == m2->clipRect)) confirmed("Map() leaves clipRect uninitialised: {%d,%d,%d,%d} vs {%d,%d,%d,%d}", m1->clipRect.x1, m1->clipRect.y1, m1->clipRect.x2, m1->clipRect.y2, m2->clipRect.x1, m2->clipRect.y1, m2->clipRect.x2, m2->clipRect.y2);
+		Stream::DynamicMemoryWriter w1, w2; m1->Write(w1); m2->Write(w2);
+		auto r1 = w1.GetReader(), r2 = w2.GetReader();
+		std::vector<char> b1(r1.Length()), b2(r2.Length()); r1.Read(b1.data(), b1.size()); r2.Read(b2.data(), b2.size());
+		if (b1 != b2) confirmed("two default maps serialise to different bytes");
+		m1->~Map(); m2->~Map();
 		return finish();
 	}
 	printf("unknown case %s\n", c.c_str());
